@@ -163,6 +163,45 @@ fn history(rng: &mut Rng, id: usize, crystals: &[(String, CrystalType)]) {
   execute(id, &cid, &setup, pol, phi0, theta0, lambda0, waist0, &ops);
 }
 
+/// Snell round trip through <Signal|Idler>Config::try_as_beam with theta_external_deg
+#[allow(clippy::too_many_arguments)]
+fn config_snell(cid: &str, crystal: &CrystalType, pm: PMType, which: &'static str, ct: f64, cp: f64, t_c: f64, lambda: f64, phi_deg: f64, te_deg: f64) {
+  let mut setup = setup_of_t(crystal, ct, cp, t_c);
+  setup.pm_type = pm;
+  let pol = if which == "signal" { pm.signal_polarization() } else { pm.idler_polarization() };
+  let st = setup.clone();
+  let r = guarded(move || {
+    let beam: Beam = if which == "signal" {
+      SignalConfig { wavelength_nm: lambda * 1e9, phi_deg, theta_deg: None, theta_external_deg: Some(te_deg), waist_um: 100.0,
+                     waist_position_um: AutoCalcParam::default() }.try_as_beam(&st).map(|b| b.as_beam())
+    } else {
+      IdlerConfig { wavelength_nm: lambda * 1e9, phi_deg, theta_deg: None, theta_external_deg: Some(te_deg), waist_um: 100.0,
+                    waist_position_um: AutoCalcParam::default() }.try_as_beam(&st).map(|b| b.as_beam())
+    }.map_err(|e| e.to_string())?;
+    let back = *(beam.theta_external(&st) / RAD);
+    let ti = *(beam.theta_internal() / RAD);
+    let n = *beam.refractive_index(beam.frequency(), &st);
+    let ind = *st.crystal.get_indices(beam.vacuum_wavelength(), st.temperature);
+    let d = beam.direction().into_inner();
+    Ok::<_, String>((back, ti, n, [ind.x, ind.y, ind.z], [d.x, d.y, d.z], *(beam.phi() / RAD), *(beam.vacuum_wavelength() / M), pol_name(beam.polarization())))
+  });
+  let gen = format!("config_{}", which);
+  let te = *(te_deg * DEG / RAD);
+  let bphi = *(phi_deg * DEG / RAD);
+  match r {
+    Ok(Ok((back, ti, n, ind, d, phi, weff, bpol))) => emit(json!({
+      "kind": "snell", "id": cid, "pol": bpol, "want_pol": pol_name(pol), "pm": format!("{:?}", pm), "pm_str": pm.to_string(), "which": which, "lambda_in": fx(lambda), "ct": fx(ct), "cp": fx(cp), "tc": fx(t_c),
+      "lambda": fx(weff), "weff": fx(weff), "bphi": fx(bphi), "phi_deg": fx(phi_deg), "phi": fx(phi), "te": fx(te), "te_deg": fx(te_deg),
+      "back": fx(back), "ti": fx(ti), "n": fx(n), "ind": fxs(&ind), "dir": fxs(&d), "gen": gen,
+    })),
+    Ok(Err(msg)) | Err(msg) => emit(json!({
+      "kind": "snell", "id": cid, "pol": pol_name(pol), "ct": fx(ct), "cp": fx(cp), "tc": fx(t_c), "lambda": fx(lambda),
+      "bphi": fx(bphi), "te": fx(te), "te_deg": fx(te_deg), "panic": msg, "gen": gen,
+      "pm_str": pm.to_string(), "which": which, "lambda_in": fx(lambda), "phi_deg": fx(phi_deg),
+    })),
+  }
+}
+
 fn hexf(v: &Value) -> f64 {
   f64::from_bits(u64::from_str_radix(v.as_str().unwrap_or("0x0").trim_start_matches("0x"), 16).unwrap_or(0))
 }
@@ -187,6 +226,10 @@ fn replay(js: &str, crystals: &[(String, CrystalType)]) {
       .map(|o| (o["op"].as_str().unwrap_or("").to_string(), o["args"].as_array().cloned().unwrap_or_default().iter().map(hexf).collect()))
       .collect();
     execute(0, cid, &setup, pol_str(&init["pol"]), hexf(&init["phi"]), hexf(&init["theta"]), hexf(&init["lambda"]), hexf(&init["waist"]), &ops);
+  } else if v["kind"] == "config" {
+    let pm = match std::str::FromStr::from_str(v["pm"].as_str().unwrap_or("")) { Ok(p) => p, Err(_) => return };
+    let which: &'static str = if v["which"] == "idler" { "idler" } else { "signal" };
+    config_snell(cid, &crystal, pm, which, hexf(&v["ct"]), hexf(&v["cp"]), hexf(&v["tc"]), hexf(&v["lambda"]), hexf(&v["phi_deg"]), hexf(&v["te_deg"]));
   } else if v["kind"] == "snell" {
     let t_c = if v["tc"].is_string() { hexf(&v["tc"]) } else { 20.0 };
     snell_at(cid, &crystal, pol_str(&v["pol"]), hexf(&v["ct"]), hexf(&v["cp"]), t_c, hexf(&v["lambda"]), hexf(&v["te"]), hexf(&v["bphi"]), "replay");
@@ -333,37 +376,7 @@ pub fn run(args: &[String]) {
           let lambda = rng.range(wlo, whi);
           let phi_deg = match (k + j) % 4 { 0 => 60.0, 1 => rng.range(5.0, 355.0), 2 => -rng.range(5.0, 175.0), _ => 360.0 + rng.range(5.0, 80.0) };
           let te_deg = match j % 3 { 0 => rng.range(0.5, 80.0), 1 => 1.0, _ => -rng.range(0.5, 80.0) };
-          let pol = if which == "signal" { pm.signal_polarization() } else { pm.idler_polarization() };
-          let st = setup.clone();
-          let r = guarded(move || {
-            let beam: Beam = if which == "signal" {
-              SignalConfig { wavelength_nm: lambda * 1e9, phi_deg, theta_deg: None, theta_external_deg: Some(te_deg), waist_um: 100.0,
-                             waist_position_um: AutoCalcParam::default() }.try_as_beam(&st).map(|b| b.as_beam())
-            } else {
-              IdlerConfig { wavelength_nm: lambda * 1e9, phi_deg, theta_deg: None, theta_external_deg: Some(te_deg), waist_um: 100.0,
-                            waist_position_um: AutoCalcParam::default() }.try_as_beam(&st).map(|b| b.as_beam())
-            }.map_err(|e| e.to_string())?;
-            let back = *(beam.theta_external(&st) / RAD);
-            let ti = *(beam.theta_internal() / RAD);
-            let n = *beam.refractive_index(beam.frequency(), &st);
-            let ind = *st.crystal.get_indices(beam.vacuum_wavelength(), st.temperature);
-            let d = beam.direction().into_inner();
-            Ok::<_, String>((back, ti, n, [ind.x, ind.y, ind.z], [d.x, d.y, d.z], *(beam.phi() / RAD), *(beam.vacuum_wavelength() / M), pol_name(beam.polarization())))
-          });
-          let gen = format!("config_{}", which);
-          let te = *(te_deg * DEG / RAD);
-          let bphi = *(phi_deg * DEG / RAD);
-          match r {
-            Ok(Ok((back, ti, n, ind, d, phi, weff, bpol))) => emit(json!({
-              "kind": "snell", "id": cid, "pol": bpol, "want_pol": pol_name(pol), "pm": format!("{:?}", pm), "ct": fx(ct), "cp": fx(cp), "tc": fx(t_c),
-              "lambda": fx(weff), "weff": fx(weff), "bphi": fx(bphi), "phi_deg": fx(phi_deg), "phi": fx(phi), "te": fx(te), "te_deg": fx(te_deg),
-              "back": fx(back), "ti": fx(ti), "n": fx(n), "ind": fxs(&ind), "dir": fxs(&d), "gen": gen,
-            })),
-            Ok(Err(msg)) | Err(msg) => emit(json!({
-              "kind": "snell", "id": cid, "pol": pol_name(pol), "ct": fx(ct), "cp": fx(cp), "tc": fx(t_c), "lambda": fx(lambda),
-              "bphi": fx(bphi), "te": fx(te), "te_deg": fx(te_deg), "panic": msg, "gen": gen,
-            })),
-          }
+          config_snell(cid, crystal, *pm, which, ct, cp, t_c, lambda, phi_deg, te_deg);
           // theta_deg path: angles as requested
           if j == 0 {
             let th_deg = rng.range(-40.0, 40.0);
